@@ -32,19 +32,20 @@ DIR_NAMES = [
     "trail ", "back\\slash", "at@home", "com,ma", "star*", "(paren)", "[sq]", "{cur}", "dollar$", "ex!cl", "pi|pe",
     "caret^", "gr`ave", "a\tb", "KKelvin", "İstanbul", "x y", "emoji\U0001F35D", "UPPER", "lower",
     "Tea2Go", "ABCdef", "a_b-c d", "é", "mdx", "readme", "index",
+    "preserves", "preserves", "conserves & jams", "serves you right", "Reserves", "it deserves",
 ]
 STEMS = [
     "spag bol", "lasagne", "tikka_masala", "Saag Aloo", "q?r", "a#b", "100%", "50%25", "it's", 'quo"te', "a&b",
     "日本", "Crème", "a+b", "x;y", "e=mc2", "tilde~", "dot.ted.name", "2", "UPPER", ":c", " sp", "sp ", "a\\b",
     "a@b", "c,d", "st*r", "(p)", "[s]", "ex!", "g`r", "K", "\U0001F35D", "roti", "naan", "dal", "x.html",
-    "readme2", "index2", "serves3", "a%2Fb", "%41", "%zz", "plus+plus",
+    "readme2", "index2", "serves3", "a%2Fb", "%41", "%zz", "plus+plus", "preserves", "deserves more", "conserves",
 ]
 MD_EXTS = [".md", ".md", ".md", ".MD", ".Md", ".mD"]
 README_NAMES = ["README.md", "index.md", "readme.md", "Readme.MD", "INDEX.MD", "ReadMe.md", "Index.Md"]
 ASSET_NAMES = [
     "pic.png", "photo 1.jpg", "data", "notes.txt", "archive.tar.gz", "ünï.svg", "q?.gif", "a#b.png", "100%.css",
     "x.html", "it's.pdf", 'd"q.bin', "a&b.js", "日本.webp", "UP.PNG", "a+b.ico", "semi;.txt", "%41.txt", "sp ace.md.txt",
-    "no_ext.", "tab\t.txt", "readme.txt", "index.markdown",
+    "no_ext.", "tab\t.txt", "readme.txt", "index.markdown", "c++tips.txt", "c++tips.txt", "1+1.png",
 ]
 TITLES = [
     "Spag Bol", "Lasagne", "Same", "Same", "Same", "same", "Tikka & Masala", "It's \"good\"", "日本のカレー", "Crème brûlée",
@@ -117,6 +118,8 @@ def enc_component(rng: random.Random, c: str, style: str) -> str:
         out = "".join(ch if ord(ch) > 127 else quote(ch, safe="") for ch in c)
     else:
         out = quote(c, safe="")
+    if "%2B" in out and rng.random() < 0.7:
+        out = out.replace("%2B", "+")          # a literal "+" is a plus sign in a URL path, not a space
     if style == "over":
         res = []
         i = 0
@@ -227,6 +230,10 @@ def recipe_text(rng: random.Random, title: Optional[str], servings: Optional[int
         body.append(rng.choice(PROSE) + rng.choice(["", " {2}", " {1/2} cups", " {1.5}kg and {3} more"]))
     for ln in links:
         body.append(rng.choice(PROSE) + " " + ln + rng.choice(["", " and more.", " {4} times"]))
+    if rng.random() < 0.25:
+        # a {..} expression wrapped over two source lines (a soft line break inside the braces)
+        body.append(rng.choice(["Serve with {8\nsmall burgers} each", "Needs {3\nlarge} tins and {1/2\ncup} oil",
+                                "About {6\n} in all", "Lay out {12 \nwraps}, warm"]))
     rng.shuffle(body)
     for b in body:
         lines += [b, ""]
@@ -304,6 +311,10 @@ def gen_skeleton(rng: random.Random, depth: int, max_depth: int, fan: int, budge
             continue
         ch.append({"k": "f", "name": nm, "role": "asset",
                    "hex": bytes(rng.randrange(256) for _ in range(rng.randrange(0, 40))).hex()})
+        if "+" in nm and nm.replace("+", " ") not in names and rng.random() < 0.6:
+            names.add(nm.replace("+", " "))
+            ch.append({"k": "f", "name": nm.replace("+", " "), "role": "decoy",
+                       "hex": (b"DECOY" + bytes(rng.randrange(256) for _ in range(12))).hex()})
     if depth < max_depth:
         n_sub = rng.randrange(0, fan + 1)
         if depth == 0 and n_sub == 0 and rng.random() < 0.8:
@@ -323,7 +334,7 @@ def gen_skeleton(rng: random.Random, depth: int, max_depth: int, fan: int, budge
 
 def _targets(src: Node) -> Dict[str, List[Tuple[Tuple[str, ...], Node]]]:
     t: Dict[str, List[Tuple[Tuple[str, ...], Node]]] = {"recipe": [], "readme": [], "asset": [], "dir": [((), src)],
-                                                         "link": []}
+                                                         "link": [], "decoy": []}
     for p, n in walk(src):
         if n["k"] == "d":
             t["dir"].append((p, n))
@@ -443,11 +454,22 @@ def gen_site(rng: random.Random, profile: str = "valid", size: str = "medium") -
                 if big_m and rng.random() < 0.7:
                     serv = rng.randrange(11, M + 1)
                 links = gen_links(rng, dp, tg, rng.choice([0, 0, 1, 1, 2, 3]))
+                if "serves" in "/".join(dp + (c["name"],)) and tg["recipe"]:
+                    # a page whose address contains "serves" without being below /serves<N>: links to other recipes
+                    for _ in range(2):
+                        rp, _rn = rng.choice(tg["recipe"])
+                        links.append(md_link(rng, spell(rng, dp, rp, rng.choice(["rel", "abs"]), "plain")))
+                    if rng.random() < 0.7:
+                        serv = None
                 if rng.random() < 0.08:
                     t = ""
                 c["text"] = recipe_text(rng, t, serv, links)
             elif c["role"] == "readme":
                 links = gen_links(rng, dp, tg, rng.choice([0, 1, 1, 2]))
+                if "serves" in "/".join(dp) and tg["recipe"]:
+                    for _ in range(2):
+                        rp, _rn = rng.choice(tg["recipe"])
+                        links.append(md_link(rng, spell(rng, dp, rp, rng.choice(["rel", "abs"]), "plain")))
                 c["text"] = readme_text(rng, t if rng.random() < 0.8 else rng.choice(TITLES), links)
 
     site = {"M": M, "input": inp, "base": base, "profile": profile}
@@ -461,7 +483,7 @@ def gen_site(rng: random.Random, profile: str = "valid", size: str = "medium") -
 FAULTS = ["multiple-readme", "readme-missing-title", "readme-malformed-title", "recipe-missing-title", "compile",
           "max-servings", "link-outside-dots", "link-outside-abs-symlink", "link-outside-rel-symlink",
           "link-outside-dir-symlink", "link-missing", "link-outside-encoded",
-          "link-sibling-rel", "link-sibling-abs", "link-sibling-encoded", "link-sibling-symlink", "link-sibling-dir-symlink"]
+          "title-with-scaled-value", "link-sibling-rel", "link-sibling-abs", "link-sibling-encoded", "link-sibling-symlink", "link-sibling-dir-symlink"]
 
 
 SIBLING_NAMES = ["src-private", "src2", "src.bak", "src copy", "srcé"]
@@ -497,7 +519,14 @@ def plant_fault(rng: random.Random, site: Dict[str, Any], profile: str, tg: Dict
         dn["ch"] = [c for c in dn["ch"] if not is_readme_name(c["name"])]
         dn["ch"].insert(rng.randrange(len(dn["ch"]) + 1), F(rng.choice(README_NAMES), text=readme_text(rng, "T", [], kind)))
     elif kind == "recipe-missing-title":
-        add_recipe(rng.choice(["No heading here\n", "## Only level two\n", "# 100% rye\n", "# A <b>b</b> for 2\n", ""]))
+        add_recipe(rng.choice(["No heading here\n", "## Only level two\n", "# 100% rye\n", "# A <b>b</b> for 2\n", "",
+                               "# Pancakes {3} ways for 2\n\nText\n", "# Mix {2} and match\n\n    2 eggs\n",
+                               "# Pancakes {3} ways for 2\n\nText\n"]))
+    elif kind == "title-with-scaled-value":
+        # a first heading with a {..} value that is NOT at its start: no title can be taken from it (rejected the same
+        # way by every process)
+        add_recipe(rng.choice(["# Pancakes {3} ways for 2\n\nText {2}\n\n    2 eggs\n", "# Mix {2} and match\n\n    2 eggs\n",
+                               "# Feeds about {4}\n\nText\n", "# Burgers: {8} small ones for 4\n\n    8 buns\n"]))
     elif kind == "compile":
         add_recipe(recipe_text(rng, "Broken", None, [], "compile"))
     elif kind == "max-servings":
